@@ -11,11 +11,11 @@ def plan(tier, seed, kf_ids):
     a = "I9F23"
     F = 23
     one = 1 << F
-    centres = [one - 128, 2 * one - 128, (1 << 31) - 256, (one >> 1) - 128, (1 << (F - 7)) - 128, 3 * one, 100 * one]
+    centres = [one - 128, 2 * one - 128, (1 << 31) - 256, (one >> 1) - 128, (1 << (F - 7)) - 128, (1 << (F - 8)) - 128, 1024 - 128, 3 * one, 100 * one]
     centres += [(1 << p) - 128 for p in ((20, 29) if q else range(17, 31))]
-    centres += [rnd.randrange(1 << 16, 1 << 31) for _ in range(2 if q else 10)]
+    centres += [rnd.randrange(1 << 16, 1 << 31) for _ in range(2 if q else 10)] + [rnd.randrange(1, 1 << 15)]
     for c in sorted(set(centres)):
-        must_ok = c > (1 << (F - 8)) + 512
+        must_ok = c >= (1 << (F - 8))
         jobs.append(acc.acc1("c14", "log2", a, a, c, 8, 8, 0, must_ok, 40))
         if not q or c in (one - 128, 3 * one, (1 << 31) - 256) or c == centres[-1]:
             jobs.append(acc.acc1("c14", "ln", a, a, c, 8, 8, 23, must_ok, 40))
